@@ -513,6 +513,70 @@ def run_switch(shard, acc):
     acc.case(dict(kind="switch", a=nfa, b=nfb), True, viols)
 
 
+def run_many_threads(case, acc):
+    """Many simultaneously live threads take samples while one long-lived thread goes on measuring: whatever the others do, each
+    thread is measured against its own previous sample. The counters advance by the same amount of busy and idle time at every
+    step, so any interval between two samples of one thread is exactly 50 % busy."""
+    env = setup(case["nf"])
+    ps, st = env["ps"], env["st"]
+    nf, nthreads, ncpu = case["nf"], case["threads"], 2
+    viols = []
+    ctx = f"case={case}"
+
+    def advance():
+        # user (field 0) and idle (field 3) grow by the same number of ticks on every CPU
+        st.snap = [[v + (700 if i in (0, 3) else 0) for i, v in enumerate(c)] for c in st.snap]
+    st.snap = [[1000 * (k + 1) + i for i in range(nf)] for k in range(ncpu)]
+    forms = [("cpu_percent", False), ("cpu_percent", True), ("cpu_times_percent", False), ("cpu_times_percent", True)]
+
+    def sample_all():
+        return [getattr(ps, fn)(percpu=pc) for fn, pc in forms]
+
+    def judge(tag, got):
+        for (fn, pc), val in zip(forms, got):
+            rows = val if pc else [val]
+            for row in rows:
+                acc.count("many_threads_samples_checked")
+                ok = (row == 50.0) if fn == "cpu_percent" else (row.user == 50.0 and row.idle == 50.0 and
+                                                               all(getattr(row, f) == 0.0 for f in row._fields if f not in ("user", "idle")))
+                if not ok:
+                    viols.append((f"{fn}_wrong:own_sample_lost_among_many_threads",
+                                  ctx + f" {tag}: {fn}(percpu={pc}) -> {val!r}, want exactly 50 % busy since this thread's previous sample"))
+                    return
+    callers = [Caller() for _ in range(nthreads)]
+    env["vk"].__enter__()
+    try:
+        sample_all()                    # the long-lived thread's baseline
+        for k, c in enumerate(callers):
+            advance()
+            r = c.call(sample_all)      # a worker's first sample (its value is the documented meaningless one)
+            if r[0] != "ok":
+                viols.append((f"cpu_percent_exception:{type(r[1]).__name__}:many_threads", ctx + f" {r[1]!r}"))
+                break
+            if (k + 1) % case["every"] == 0:
+                advance()
+                judge(f"long-lived thread after {k + 1} workers sampled", sample_all())
+                if viols:
+                    break
+        if not viols:
+            # the workers themselves, a second time, oldest first
+            for k, c in enumerate(callers):
+                advance()
+                r = c.call(sample_all)
+                if r[0] == "ok":
+                    judge(f"worker {k}, second sample", r[1])
+                    if viols:
+                        break
+    finally:
+        env["vk"].__exit__(None, None, None)
+        for c in callers:
+            c.q.put(lambda: (_ for _ in ()).throw(SystemExit))      # ends the worker's loop
+    if not any(k == "open" and p == "/proc/stat" for k, p in env["vk"].log[-50:]):
+        acc.inconclusive = "many_threads: the samples did not come from the simulated /proc/stat"
+    acc.count("many_live_threads_cases")
+    acc.case(case, True, viols)
+
+
 def plan(tier, seed):
     n = 3000 if tier == "quick" else 120000
     shards = []
@@ -524,6 +588,8 @@ def plan(tier, seed):
         for b in (7, 8, 9, 10):
             if a != b:
                 shards.append(dict(kind="switch", a=a, b=b))
+    for nf, nthreads in ((10, 100), (8, 300 if tier == "quick" else 1500)):
+        shards.append(dict(kind="many_threads", nf=nf, threads=nthreads, every=10))
     return shards
 
 
@@ -541,7 +607,12 @@ def run_shard(shard):
         acc.count(f"cases_nf{shard['nf']}", acc.evals)
     elif k == "switch":
         run_switch(shard, acc)
+    elif k == "many_threads":
+        run_many_threads(dict(kind="many_threads", nf=shard["nf"], threads=shard["threads"], every=shard["every"]), acc)
     elif k == "cases":
+        if shard["cases"] and shard["cases"][0].get("kind") == "many_threads":
+            run_many_threads(shard["cases"][0], acc)
+            return acc.result()
         if shard["cases"] and shard["cases"][0].get("kind") == "switch":
             run_switch(shard["cases"][0], acc)
             return acc.result()
